@@ -64,6 +64,7 @@ DiffAsDeclared(c, d) ==
     CASE c.t = "none"  -> d = {}
       [] c.t = "field" -> d \subseteq {c.f}
       [] c.t = "mix"   -> d \subseteq {f \in BodyDep : c.src[f] # c.body}
+      [] c.t = "replay" -> d \subseteq ReplayGroups[c.g]
       [] OTHER         -> TRUE
 
 TBegin == /\ Is("Begin") /\ orig.kind # "" /\ Line.kind = orig.kind /\ phase \in {"idle", "added", "inserted"}
@@ -116,7 +117,9 @@ TAdd == /\ Is("Add") /\ phase = "validated"
 (* clean node has after inserting it                                                            *)
 TInsert == /\ Is("Insert") /\ phase = "added"
            /\ Report({x \in {"OriginalNotInsertable"} : clean /\ Line.r # "accept"}
-                     \cup {x \in {"InsertionDiffersFromClean"} : clean /\ Line.r = "accept" /\ Line.post # orig.ref}
+                     \* a warmed-up node (replay cases) is compared with a node warmed up the same way (`ref` on the line)
+                     \cup {x \in {"InsertionDiffersFromClean"} :
+                              clean /\ Line.r = "accept" /\ Line.post # (IF "ref" \in DOMAIN Line THEN Line.ref ELSE orig.ref)}
                      \cup {x \in {"HarnessInsertAfterAccept"} : ~clean})
            /\ node' = Line.post /\ phase' = "inserted"
            /\ UNCHANGED <<vars, orig, cur, clean, drift>>
